@@ -25,6 +25,7 @@ import (
 	"github.com/regclient/regclient/types/descriptor"
 
 	"verif/ev"
+	"verif/gen"
 	la "verif/layoutaudit"
 	"verif/modelreg"
 	"verif/rcx"
@@ -50,6 +51,7 @@ type Case struct {
 	AckStyle       string
 	MaxAccept      int
 	MonoKeep       int
+	PreHeld        bool   // (layout, wrong-digest) the layout already holds the blob the descriptor names; the stream has other bytes of the same length
 	SrcFail        string // "" | unexpected-eof | other: the caller's stream fails with that error after SrcFailAt bytes
 	SrcFailAt      int
 	monoKeepWanted bool
@@ -262,13 +264,14 @@ func genCase(rng *rand.Rand, i int) Case {
 		c.MonoKeep = int(c.Chunk) + 1 + rng.Intn(int(c.Chunk)+1)
 	}
 	c.Early201 = rng.Intn(8) == 0
-	c.Relocate = []string{"", "", "absolute", "relative", "query", "newpath"}[rng.Intn(6)]
+	c.Relocate = []string{"", "", "absolute", "relative", "query", "newpath", "deeper-relative"}[rng.Intn(7)]
 	c.Refuse = rng.Intn(6) == 0
 	if rng.Intn(4) == 0 {
 		c.FaultAt = 1 + rng.Intn(7)
 		c.Fault = []string{"status:500", "status:502", "status:504", "status:429", "reset", "status:408"}[rng.Intn(6)]
 	}
 	c.Dir = rng.Intn(7) == 0
+	c.PreHeld = c.Dir && c.Decl == "wrong-digest" && c.Len > 0 && rng.Intn(2) == 0
 	if rng.Intn(12) == 0 && c.Len > 0 {
 		c.SrcFail = []string{"unexpected-eof", "unexpected-eof", "other"}[rng.Intn(3)]
 		c.SrcFailAt = rng.Intn(c.Len) // strictly inside the content
@@ -301,6 +304,7 @@ func runCase(c Case) {
 	rng.Read(content)
 	actual := la.Digest(c.Alg, content)
 	var d descriptor.Descriptor
+	var preHeld []byte
 	switch c.Decl {
 	case "none":
 		if c.Alg == "sha512" {
@@ -310,6 +314,12 @@ func runCase(c Case) {
 		d.Digest, d.Size = digest.Digest(actual), int64(c.Len)
 	case "wrong-digest":
 		other := append(bytes.Clone(content), 'x')
+		if c.PreHeld {
+			// same length, other bytes - and the destination already holds what the descriptor names
+			other = bytes.Clone(content)
+			other[len(other)-1] ^= 0x01
+			preHeld = other
+		}
 		d.Digest, d.Size = digest.Digest(la.Digest(c.Alg, other)), int64(c.Len)
 	case "short":
 		d.Digest, d.Size = digest.Digest(actual), int64(c.Len)-1
@@ -377,6 +387,11 @@ func runCase(c Case) {
 		dir, _ := os.MkdirTemp(os.Getenv("VERIF_BIN"), "c05")
 		defer os.RemoveAll(dir)
 		rc := rcx.New(nil, rcx.Opts{})
+		if preHeld != nil {
+			_ = gen.WriteLayoutIndex(dir, nil)
+			_ = gen.WriteLayoutBlob(dir, string(d.Digest), preHeld)
+			run.Count("layout_uploads_onto_a_held_digest_with_other_bytes", 1)
+		}
 		got, err := rc.BlobPut(ctx, rcx.DirRef(dir, ""), d, src)
 		wsrc.returned.Store(true)
 		l := la.Layout{Dir: dir}
@@ -542,7 +557,12 @@ func judge(c Case, decl, got descriptor.Descriptor, err error, actual string, co
 		}
 	}
 	if mismatch && decl.Digest.Validate() == nil {
-		if b, ok := blob(string(decl.Digest)); ok && !(string(decl.Digest) == actual && bytes.Equal(b, content) && c.Decl != "short" && c.Decl != "long") {
+		if b, ok := blob(string(decl.Digest)); ok && c.PreHeld {
+			// it was there before: it must still be what the digest names, not the caller's other bytes
+			if !la.Matches(string(decl.Digest), b) {
+				run.Violation("held-blob-replaced-by-other-bytes/"+dst, fmt.Sprintf("the blob the destination held under %s no longer matches that digest after an upload of other bytes was attempted", decl.Digest), wit())
+			}
+		} else if ok && !(string(decl.Digest) == actual && bytes.Equal(b, content) && c.Decl != "short" && c.Decl != "long") {
 			run.Violation(fmt.Sprintf("committed-under-declared/%s/%s", c.Decl, dst), fmt.Sprintf("declared descriptor does not match the stream (%s) but the destination now holds a blob under the declared digest %s", c.Decl, decl.Digest), wit())
 		}
 	}
